@@ -117,10 +117,8 @@ func ruleE6(c *Ctx) []Ob {
 			in[f] = true
 		}
 		sort.Slice(comp, func(i, j int) bool { return comp[i].String() < comp[j].String() })
-		maxDec := int64(0)
-		allOne := true
 		depthParam := map[*ssa.Function]*ssa.Parameter{}
-		// depth parameter: the int parameter from which every intra-SCC call's corresponding argument derives
+		// depth parameter: the last signed-int parameter
 		for _, f := range comp {
 			var cands []*ssa.Parameter
 			for _, p := range f.Params {
@@ -134,12 +132,24 @@ func ruleE6(c *Ctx) []Ob {
 			}
 			depthParam[f] = cands[len(cands)-1]
 		}
+		guards := map[*ssa.Function]*guardInfo{}
+		for _, f := range comp {
+			if dp := depthParam[f]; dp != nil {
+				guards[f] = entryGuard(f, dp)
+			}
+		}
+		type dedge struct {
+			to  *ssa.Function
+			dec int64
+		}
+		edges := map[*ssa.Function][]dedge{}
+		okEdges := true
 		for _, f := range comp {
 			dp := depthParam[f]
 			if dp == nil {
+				okEdges = false
 				continue
 			}
-			// calls
 			for _, e := range adj[f] {
 				if !in[e.Callee.Func] || e.Site == nil {
 					continue
@@ -148,9 +158,9 @@ func ruleE6(c *Ctx) []Ob {
 				cdp := depthParam[callee]
 				key := fmt.Sprintf("%s->%s:decrement", shortFn(f), shortFn(callee))
 				if cdp == nil {
+					okEdges = false
 					continue
 				}
-				// argument index of callee's depth param
 				ai := -1
 				for i, p := range callee.Params {
 					if p == cdp {
@@ -160,65 +170,126 @@ func ruleE6(c *Ctx) []Ob {
 				args := e.Site.Common().Args
 				if e.Site.Common().IsInvoke() || ai < 0 || ai >= len(args) {
 					s.undec(key, c.InstrPos(e.Site), "recursive call whose depth argument cannot be identified")
+					okEdges = false
 					continue
 				}
-				arg := args[ai]
-				dec, ok := decrementOf(arg, dp)
+				dec, ok := decrementOf(args[ai], dp)
 				if !ok {
-					s.bad(key, c.InstrPos(e.Site), "recursive call does not pass `"+dp.Name()+" - c` (c >= 1 constant) as depth: "+c.srcLine(e.Site.Pos()))
+					s.bad(key, c.InstrPos(e.Site), "recursive call does not pass `"+dp.Name()+" - c` (c >= 0 constant) as depth: "+c.srcLine(e.Site.Pos()))
+					okEdges = false
 					continue
 				}
-				if dec < 1 {
-					s.bad(key, c.InstrPos(e.Site), fmt.Sprintf("recursive call passes the depth unchanged or increased (decrement %d): the recursion is not bounded by the depth limit", dec))
+				if dec < 0 {
+					s.bad(key, c.InstrPos(e.Site), fmt.Sprintf("recursive call increases the depth budget (decrement %d)", dec))
+					okEdges = false
 					continue
 				}
-				if dec != 1 {
-					allOne = false
-				}
-				if dec > maxDec {
-					maxDec = dec
-				}
-				// entry guard dominates the call
-				g0 := entryGuard(f, dp)
-				if g0 == nil {
-					continue // reported below
-				}
-				okDom := false
-				for k := 0; k < 2; k++ {
-					if k != g0.errIdx && edgeDominates(g0.iff.Block(), k, e.Site.Block()) {
-						okDom = true
+				edges[f] = append(edges[f], dedge{callee, dec})
+				// in a guarded function the call must come after the guard
+				if g0 := guards[f]; g0 != nil {
+					okDom := false
+					for k := 0; k < 2; k++ {
+						if k != g0.errIdx && edgeDominates(g0.iff.Block(), k, e.Site.Block()) {
+							okDom = true
+						}
 					}
+					s.check(okDom, key, c.InstrPos(e.Site), fmt.Sprintf("passes %s-%d under the entry guard", dp.Name(), dec), "recursive call is not dominated by the depth test of "+shortFn(f))
+				} else {
+					s.ok(key, c.InstrPos(e.Site), fmt.Sprintf("passes %s-%d (unguarded member: bounded through the guarded members of the cycle, see cycle obligations)", dp.Name(), dec))
 				}
-				s.check(okDom, key, c.InstrPos(e.Site), fmt.Sprintf("passes %s-%d under the entry guard", dp.Name(), dec), "recursive call is not dominated by the depth test of "+shortFn(f))
 			}
 		}
+		// guards
+		anyEq := false
+		nGuarded := 0
 		for _, f := range comp {
-			dp := depthParam[f]
-			if dp == nil {
-				continue
-			}
-			g0 := entryGuard(f, dp)
+			g0 := guards[f]
 			key := shortFn(f) + ":entry-guard"
 			if g0 == nil {
-				s.bad(key, c.Pos(f.Pos()), "recursive decode function does not test its depth parameter on entry: with decrements of different sizes along a cycle the counter steps over zero in the other member, the recursion is unbounded")
 				continue
 			}
+			nGuarded++
 			switch {
-			case g0.op == token.EQL && g0.k == 0 && !allOne:
-				s.bad(key, c.InstrPos(g0.iff), "depth is tested with == 0 but some recursive call decrements by more than 1: the counter can step over zero")
 			case g0.op == token.EQL && g0.k != 0:
 				s.bad(key, c.InstrPos(g0.iff), "depth is tested for equality with a non-zero constant")
 			case !g0.errors:
 				s.bad(key, c.InstrPos(g0.iff), "the depth-exhausted edge does not return the depth-limit error")
 			default:
-				s.ok(key, c.InstrPos(g0.iff), fmt.Sprintf("%s %s %d returns errDepthLimitExceeded", dp.Name(), g0.op, g0.k))
+				if g0.op == token.EQL {
+					anyEq = true
+				}
+				s.ok(key, c.InstrPos(g0.iff), fmt.Sprintf("%s %s %d returns errDepthLimitExceeded", depthParam[f].Name(), g0.op, g0.k))
 			}
 		}
-		if okL && maxDec > 0 {
-			need := 48 * int64(len(comp)) * maxDec
+		if nGuarded == 0 {
+			s.bad("cycle:guarded-member", c.Pos(comp[0].Pos()), "no member of the recursive cycle tests the depth: recursion driven by the input is unbounded")
+		}
+		// cycle obligations on the graph collapsed to guarded members
+		maxTotal := int64(0)
+		if okEdges && nGuarded > 0 {
+			// unguarded sub-graph must be acyclic
+			state := map[*ssa.Function]int{}
+			cyc := false
+			var dfs func(f *ssa.Function)
+			dfs = func(f *ssa.Function) {
+				state[f] = 1
+				for _, e := range edges[f] {
+					if guards[e.to] != nil {
+						continue
+					}
+					if state[e.to] == 1 {
+						cyc = true
+					} else if state[e.to] == 0 {
+						dfs(e.to)
+					}
+				}
+				state[f] = 2
+			}
+			for _, f := range comp {
+				if guards[f] == nil && state[f] == 0 {
+					dfs(f)
+				}
+			}
+			s.check(!cyc, "cycle:unguarded-acyclic", c.Pos(comp[0].Pos()), "every recursive cycle passes a member that tests the depth", "there is a recursive cycle none of whose members tests the depth")
+			if !cyc {
+				for _, a := range comp {
+					if guards[a] == nil {
+						continue
+					}
+					var walk func(f *ssa.Function, total int64, depth int)
+					walk = func(f *ssa.Function, total int64, depth int) {
+						if depth > len(comp)+1 {
+							return
+						}
+						for _, e := range edges[f] {
+							t := total + e.dec
+							if guards[e.to] != nil {
+								key := fmt.Sprintf("cycle:%s=>%s", shortFn(a), shortFn(e.to))
+								if t > maxTotal {
+									maxTotal = t
+								}
+								switch {
+								case t < 1:
+									s.bad(key, c.Pos(a.Pos()), "the depth is not decreased between two depth tests: unbounded recursion")
+								case anyEq && t != 1:
+									s.bad(key, c.Pos(a.Pos()), fmt.Sprintf("the depth decreases by %d between two tests, one of which is `== 0`: the counter can step over zero and the recursion becomes unbounded", t))
+								default:
+									s.ok(key, c.Pos(a.Pos()), fmt.Sprintf("depth decreases by %d between consecutive depth tests", t))
+								}
+								continue
+							}
+							walk(e.to, t, depth+1)
+						}
+					}
+					walk(a, 0, 0)
+				}
+			}
+		}
+		if okL && maxTotal > 0 {
+			need := 48 * int64(nGuarded) * maxTotal
 			s.check(need < limit && limit <= 65536, "limit", "-",
-				fmt.Sprintf("48 levels x %d functions per level x decrement %d = %d < maxDepthLimit = %d <= 65536", len(comp), maxDec, need, limit),
-				fmt.Sprintf("maxDepthLimit = %d: 48 nesting levels can cost up to %d units (|SCC| = %d, max decrement %d), and the limit must stay <= 65536 frames", limit, need, len(comp), maxDec))
+				fmt.Sprintf("48 levels x %d depth tests per level x decrement %d = %d < maxDepthLimit = %d <= 65536", nGuarded, maxTotal, need, limit),
+				fmt.Sprintf("maxDepthLimit = %d: 48 nesting levels can cost up to %d units (%d guarded functions per level, decrement %d), and the limit must stay <= 65536 frames", limit, need, nGuarded, maxTotal))
 		}
 	}
 	if nRec == 0 {
